@@ -377,10 +377,25 @@ def _execute_case(case, g):
     got_out = [n for n in proc.io.output_grammar if n != "MDA residuals norm"]
     if sorted(got_in) != sorted(ins) or sorted(got_out) != sorted(outs):
         return [("grammar", {}, f"process inputs/outputs {got_in}/{got_out}, harness expects {ins}/{outs}")], obs
+    if case.get("cache") == "full":
+        # the PROCESS gets its own full cache (as in a DOE / an optimization): a former point is served by it
+        proc.set_cache(proc.CacheType.MEMORY_FULL, is_memory_shared=False)
     req_in, req_out = [], []
     for step in case["history"]:
         x = point(points, step.get("pt", 0), ins, sizes)
         _, _, ref_val, ref_jac, bound = reference(tree, specs, bodies, sizes, x)
+        if step.get("exec"):  # execution only: the values must be the ones of the function
+            try:
+                data = proc.execute({n: v.copy() for n, v in x.items()})
+            except Exception as e:
+                bad.append(("execute-raises", {"error": type(e).__name__}, f"step {step}: {type(e).__name__}: {str(e)[:300]}"))
+                break
+            for o in outs:
+                v = data.get(o)
+                if v is None or np.shape(v) != ref_val[o].shape or not np.array_equal(np.asarray(v, dtype=float), ref_val[o]):
+                    bad.append(("value", {}, f"step {step}: output {o} = {None if v is None else np.asarray(v).tolist()} expected {ref_val[o].tolist()}"))
+            obs["steps"].append("executed")
+            continue
         try:
             if step.get("all"):
                 jac = proc.linearize({n: v.copy() for n, v in x.items()}, compute_all_jacobians=True)
@@ -431,10 +446,14 @@ def _execute_case(case, g):
     return bad, obs
 
 
-def history_class(history):
-    if len(history) == 1:
+def history_class(case):
+    history = case["history"]
+    if case.get("cache") == "full":
+        return "own-full-cache"
+    n = sum(1 for st in history if not st.get("exec"))
+    if n == 1 and len(history) == 1:
         return "all" if history[0].get("all") else "one-request"
-    return "two-requests"
+    return {1: "execute-then-request", 2: "two-requests"}.get(n, "three-requests")
 
 
 def run_case(case, tally):
@@ -442,11 +461,11 @@ def run_case(case, tally):
     _top, shape = shape_class(case["tree"], specs)
     kind = tree_kind(case["tree"])
     bad, _obs = execute_case(case)
-    hclass = history_class(case["history"])
+    hclass = history_class(case)
     # non-trivial: a name is overwritten (read or not) or written by several disciplines, or data flows between
     # disciplines and the request is not "all Jacobians" (graph pruning, request histories)
     nontrivial = shape not in ("plain", "coupled") or (shape == "coupled" and hclass != "all")
-    key = (specs, case["tree"], case["reps"], sorted(case["sizes"].items()), case["history"], case.get("grammar"))
+    key = (specs, case["tree"], case["reps"], sorted(case["sizes"].items()), case["history"], case.get("grammar"), case.get("cache"))
     outcome = "ok" if not bad else "bad:" + ",".join(sorted({b[0] for b in bad}))
     interesting = nontrivial and digest(key)[0] % 128 == 0  # a sparse, deterministic selection for the evidence samples
     tally.case(key, nontrivial=nontrivial, outcome=f"{kind}|{outcome}", sample=case if interesting else None)
@@ -463,14 +482,16 @@ def run_case(case, tally):
         lin_bad, _ = execute_case({**case, "linear": True})
         nonlinear_only = not any(b[0] == "jacobian-block" for b in lin_bad)
     for inv, detail, msg in bad:
-        sig = {"invariant": inv, "process": kind, "shape": shape, "history": hclass, **detail}
+        # own full cache: the defect site is the process kind, whatever the composition
+        sig = {"invariant": inv, "process": kind, "shape": "any" if hclass == "own-full-cache" else shape, "history": hclass, **detail}
         if inv == "jacobian-block" and nonlinear_only is not None:
             sig["harness"] = "nonlinear-only" if nonlinear_only else "linear-too"
         if inv in ("linearize-raises", "block-unusable", "construction-raises") or "op" in rep:
             sig["rep"] = rep
         tally.violation(
             sig, case,
-            f"{inv}: {msg}\n  specs={specs} tree={case['tree']} reps={case['reps']} sizes={case['sizes']}\n  history={case['history']}",
+            f"{inv}: {msg}\n  specs={specs} tree={case['tree']} reps={case['reps']} sizes={case['sizes']}\n  history={case['history']}"
+            + (f" process cache={case['cache']}" if case.get("cache") else ""),
         )
 
 
@@ -520,7 +541,11 @@ def trees_for(specs, tier_thorough, nested=True):
     # thorough, all the outputs (a name missing in some discipline is skipped by its _execute)
     if common:
         out.append(["add", idx, common])
-    if tier_thorough and union != common:
+    # oracle boundary: MDOAdditiveChain._execute also adds the *input* value of a discipline that reads a summed name
+    # without writing it (it tests `name in discipline.io.data`), so what the process computes is not the sum of the
+    # writers; such unions are left out of the alphabet (reported, see notes/fixes/c09_additive_chain_sums_inputs.*)
+    reads_without_writing = any(n in specs[k][0] and n not in specs[k][1] for k in idx for n in union)
+    if tier_thorough and union != common and not reads_without_writing:
         out.append(["add", idx, union])
     # MDAChain: only compositions whose data graph is acyclic with a single writer per name; anything else is
     # an MDA (C06/C07) or is refused by its consistency check
@@ -594,10 +619,50 @@ def histories(ins, outs, level, all_subsets=False, pairs="all"):
     for (i1, o1), (i2, o2) in itertools.permutations(single, 2):
         # same input / same output: only one side of the request grows; disjoint: the union contains two blocks
         # nobody asked for explicitly
-        if pairs == "all" or (pairs == "disjoint" and i1 != i2 and o1 != o2):
+        disjoint = i1 != i2 and o1 != o2
+        forward = single.index((i1, o1)) < single.index((i2, o2))
+        # "half": the pairs growing one side only (same input or same output) in one order, the disjoint ones in both
+        if pairs == "all" or (pairs == "disjoint" and disjoint) or (pairs == "half" and (disjoint or forward)):
             hs.append([{"in": i1, "out": o1}, {"in": i2, "out": o2}])
         if level > 1 and i1 != i2 and o1 != o2:
             hs.append([{"in": i1, "out": o1}, {"in": i2, "out": o2, "pt": 1}])
+    return hs
+
+
+def three_calls(ins, outs):
+    """Three successive calls: all outputs wrt the first input; the other inputs are added at the same point (the
+    disciplines not reading them are served by their caches); then only the last input moves."""
+    if len(ins) < 2:
+        return []
+    return [[{"in": ins[:1], "out": list(outs)}, {"in": list(ins), "out": list(outs)}, {"all": True, "pt": {"move": ins[-1]}}]]
+
+
+def thread_histories(ins, outs, rich):
+    """Successive requests for the thread-based kinds (MDOParallelChain, MDOAdditiveChain and the nestings
+    containing them): what is returned must not depend on Jacobians that the sub-disciplines (and their caches)
+    kept from the previous call.  Every chain input is moved alone in turn, so the disciplines that do not read it
+    - in particular the last writer of an output - are served by their caches."""
+    single = [([u], [o]) for u in ins for o in outs]
+    first, last = single[0], single[-1]
+    hs = three_calls(ins, outs)
+    if len(ins) > 1:
+        hs += [[{"all": True}, {"all": True, "pt": {"move": u}}] for u in ins]
+    if rich:
+        hs.append([{"in": first[0], "out": first[1]}, {"all": True}])  # subset -> all, same point
+        hs.append([{"all": True}, {"in": last[0], "out": last[1], "pt": 1}])  # all -> subset, moved point
+        if first != last:  # singleton pairs, same point: an input and/or an output is added
+            hs.append([{"in": first[0], "out": first[1]}, {"in": last[0], "out": last[1]}])
+            hs.append([{"in": last[0], "out": last[1]}, {"in": first[0], "out": first[1]}])
+        if len(ins) > 1 and len(outs) > 1:
+            hs.append([{"in": ins[:1], "out": outs[:1]}, {"in": ins[-1:], "out": outs[:1]}])  # same output, new input
+    return hs
+
+
+def full_cache_histories(ins, outs):
+    """The process has its own full cache: a former point is served by it and then linearized."""
+    hs = [[{"exec": True, "pt": 0}, {"exec": True, "pt": 1}, {"all": True, "pt": 0}]]
+    # the Jacobian cached at point 0 lacks the blocks requested later: recomputed after a visit to point 1
+    hs.append([{"in": ins[:1], "out": outs[-1:], "pt": 0}, {"exec": True, "pt": 1}, {"all": True, "pt": 0}])
     return hs
 
 
@@ -609,9 +674,16 @@ def gen_cases(ctx, table):
     thorough = ctx.thorough
     only = getattr(ctx, "only", None)
 
-    def mk(part, specs, tree, history, reps=None, sizes=S0, grammar="simple"):
-        return {"part": part, "specs": specs, "tree": tree, "reps": reps or ["dense"] * len(specs), "sizes": sizes,
+    def mk(part, specs, tree, history, reps=None, sizes=S0, grammar="simple", cache=None):
+        case = {"part": part, "specs": specs, "tree": tree, "reps": reps or ["dense"] * len(specs), "sizes": sizes,
                 "history": history, "table": table, "grammar": grammar}
+        if cache:
+            case["cache"] = cache
+        return case
+
+    def threaded(tree):
+        kind = tree_kind(tree)
+        return "par" in kind or "add" in kind
 
     def want(part):
         return not only or part in only.split(",")
@@ -627,7 +699,7 @@ def gen_cases(ctx, table):
             if not is_canonical(specs) and (not thorough or max(len(x) for sp in specs for x in sp) > 2):
                 # the thread-based kinds (nothing in them sorts names) on the representatives only: quick, and
                 # thorough beyond 2 names per side
-                trees = [t for t in trees if "par" not in tree_kind(t) and "add" not in tree_kind(t)]
+                trees = [t for t in trees if not threaded(t) and (thorough or tree_kind(t) in CHAINLIKE)]
             for tree in trees:
                 yield mk("P1", specs, tree, [{"all": True}])
                 if thorough:
@@ -639,15 +711,24 @@ def gen_cases(ctx, table):
             for tree in trees_for(specs, thorough):
                 ins, outs = tree_io(tree, specs)
                 kind = tree_kind(tree)
-                if kind in PRUNING_KINDS:  # the kinds that prune by graph traversal
+                if kind in CHAINLIKE or (thorough and kind in PRUNING_KINDS):  # the kinds that prune by graph traversal
                     level = 2 if thorough else 1
                 else:
                     level = 1 if thorough and kind in ("par", "add", "chain[par]") else 0
                 if kind in CHAINLIKE or (thorough and kind in PRUNING_KINDS):
-                    pairs = "all"
+                    pairs = "all" if thorough else "half"
                 else:
                     pairs = "disjoint" if thorough else "none"
-                for h in histories(ins, outs, level, all_subsets=thorough and level == 2, pairs=pairs):
+                hs = histories(ins, outs, level, all_subsets=thorough and level == 2, pairs=pairs)
+                if threaded(tree) and not thorough:
+                    # quick: every other singleton request (checkerboard over inputs x outputs) for the thread-based kinds
+                    hs = [h for h in hs if len(h[0].get("in", "..")) > 1 or len(h[0].get("out", "..")) > 1
+                          or (ins.index(h[0]["in"][0]) + outs.index(h[0]["out"][0])) % 2 == 0]
+                if level > 0:
+                    hs += three_calls(ins, outs)
+                if threaded(tree):
+                    hs += [h for h in thread_histories(ins, outs, rich=thorough or kind in ("par", "add")) if h not in hs]
+                for h in hs:
                     if h != [{"all": True}]:  # done in P1
                         yield mk("P2", specs, tree, h)
         if thorough:  # up to 4 names per side: single requests
@@ -666,7 +747,7 @@ def gen_cases(ctx, table):
             yield mk("P3", specs, ["chain", [0, 1, 2]], [{"all": True}])
             if canonical and (not thorough or all(len(o) == 1 for _, o in specs)):
                 for tree in trees_for(specs, thorough)[1:]:
-                    if thorough or tree_kind(tree) not in ("chain[D,par]", "par[chain,D]"):
+                    if thorough or tree_kind(tree) not in ("chain[D,par]", "par[chain,D]", "par[D,chain]", "chain[D,chain]"):
                         yield mk("P3", specs, tree, [{"all": True}])
     # P3r three single-output disciplines (representatives), requests on the chain kinds
     if want("P3r"):
@@ -681,6 +762,8 @@ def gen_cases(ctx, table):
             for tree in trees:
                 ins, outs = tree_io(tree, specs)
                 reqs = requests(ins, outs, all_subsets=False)
+                if not thorough:  # quick: every other singleton request (checkerboard over inputs x outputs), the full one
+                    reqs = [r for r in reqs if len(r[0]) > 1 or len(r[1]) > 1 or (ins.index(r[0][0]) + outs.index(r[1][0])) % 2 == 0]
                 for i, o in reqs:
                     yield mk("P3r", specs, tree, [{"in": i, "out": o}])
                 if len(ins) > 1 and (thorough or tree[0] == "chain"):
@@ -699,6 +782,8 @@ def gen_cases(ctx, table):
         ]
         for specs in canon2_small:
             for tree in trees_for(specs, thorough):
+                if not thorough and tree_kind(tree) in ("chain[chain,D]", "chain[par]"):
+                    continue
                 ins, outs = tree_io(tree, specs)
                 hs = [[{"all": True}]]
                 if tree[0] in CHAINLIKE:
@@ -727,6 +812,16 @@ def gen_cases(ctx, table):
         for specs in canon2_small:
             for tree in trees_for(specs, False, nested=False):
                 yield mk("P5", specs, tree, [{"all": True}], grammar="json")
+
+
+    # P6  the process has its own full cache: execute(x1); execute(x2); linearize(x1)
+    if want("P6"):
+        for specs in canon2_small:
+            for tree in trees_for(specs, thorough):
+                ins, outs = tree_io(tree, specs)
+                hs = full_cache_histories(ins, outs)
+                for h in hs if thorough or not threaded(tree) or tree_kind(tree) in ("par", "add") else hs[:1]:
+                    yield mk("P6", specs, tree, h, cache="full")
 
 
 def run(ctx):
